@@ -15,10 +15,16 @@ count, sub-aperture count and leading shape in the bound, all unit inputs and pa
 form again), all pure sinusoid bins, band-limited Parseval, amplitude law, frequency axis for
 every (rate, n) pair.
 
-Lag 0 is allocated with numpy.empty in the code under test; to make the verdict on that
-clause deterministic the check recycles sentinel-filled blocks of the same size through
-NumPy's small-block cache immediately before every call (a correct implementation writes
-lag 0 and is unaffected).
+Lag 0: an implementation that allocates its output with numpy.empty and never writes lag 0 (an
+earlier state of the library did; the current one uses numpy.zeros) returns whatever the allocator
+hands out; to make the verdict on that clause deterministic the check recycles sentinel-filled
+blocks of the same size through NumPy's small-block cache immediately before every call (a correct
+implementation writes lag 0 and is unaffected).
+
+What is NOT judged: how many lags / bins are returned beyond the ones every reading of the
+documentation agrees on (see ASSUMPTIONS), the second return value of calc_slope_temporalps, the
+private draw layout of ft_phase_screen (only: normal draws, linear response - both tested on the
+library under test first; when they do not hold the screens clauses are 'not claimed').
 """
 import itertools
 import math
@@ -38,25 +44,45 @@ TECHNIQUE = ("bounded exhaustive enumeration of shapes x (nbOfPoint, step) x all
              "(quadratic-form exhaustion) against the definitions; exact ensemble mean over all screens from the "
              "draw-response operator of ft_phase_screen; all frame counts x sub-apertures x leading shapes x unit/pair/"
              "sinusoid inputs for the temporal power spectrum")
-RULE = ("cases = sf:{a x b} + lag0:{a} + sfscreen:{N ladder} + sfscreen_lin + tps:{n_frames} + tpsaxis; an sf case "
+RULE = ("cases = sf:{a x b} + lag0:{a} + sfscreen:{N ladder} + sfscreen_lin + tps:{n_frames} + tpsaxis + storage + "
+        "many_subaps + tps_long:{n_frames} + sf_large:{shape} + sf_default + calling + reuse; an sf case "
         "loops over every (nbOfPoint in 1..a+1 and default, step in 1..3 and default) in the domain and over all unit "
         "images and pairs; non-trivial when a != b or step > 1 exists in the domain (always), tps non-trivial for n >= 4")
 ASSUMPTIONS = [
-    "domain of the structure-function clauses: every returned lag j satisfies j*step < a (a lag with no "
-    "overlapping rows has no defined mean); combinations outside are counted in the evidence notes, not judged",
-    "the number of returned lags (min(nbOfPoint, b/step - 1), which uses the SECOND axis length although the shift "
-    "is along the first) is not part of the statement and is not judged",
+    "domain of the structure-function clauses: calls whose documented lag count min(nbOfPoint, b/step - 1) keeps every "
+    "lag j*step < a (a lag with no overlapping rows has no defined mean); other combinations are counted in the "
+    "evidence notes and not called. Of the result, every returned lag j with j*step < a is compared with the definition",
+    "the number of returned lags (documented: min(nbOfPoint, b/step - 1), which uses the SECOND axis length although "
+    "the shift is along the first) is not part of the statement: judged is only that the result is 1-D, has at most "
+    "nbOfPoint entries and at least as many as BOTH the documented count and the count bounded by the shifted axis "
+    "min(nbOfPoint, (a-1)//step + 1) give; a deviation from the documented count is recorded as a note",
     "lag 0: the verdict is 'value != 0 after sentinel blocks of the same size were recycled through the allocator'; "
     "on an implementation that writes lag 0 this is independent of memory contents",
-    "screens clause: ensemble induced by an injected Generator (unit draws), ladder N = 8,16,32(,64) at fixed "
-    "N delta = 4 L0, separations L0/2 and L0; bounded surrogate of 'follows the analytic structure function': "
-    "error strictly decreasing along the ladder and <= 10 % at N = 32 (<= 3 % at N = 64); measured 59/24/8.2/2.4 %",
-    "Parseval is decided on band-limited real signals (DC and sinusoids at returned bins k < n/2), because the "
-    "function returns only the bins 0..floor(n/2)-1",
-    "tolerance 1e-12 relative to the largest value for identities (measured <= 1e-15)",
+    "sf_ramp_on_large_piston reads 'mean squared DIFFERENCE' as an algorithmic promise: a dyadic ramp on a piston of "
+    "up to 2^26 must come out to 1e-9 (exact when differences are formed first); an estimator that expands "
+    "<x^2>+<y^2>-2<xy> (autocorrelation / FFT based) loses eps*piston^2/diff^2 ~ 0.5 there and is rejected",
+    "screens clause: ensemble induced by an injected Generator (unit draws; premise 'only normal() draws, screen "
+    "linear in them, zero draws -> zero screen' is tested first and the clause is not claimed when it fails), ladder "
+    "N = 8,16,32(,64) at fixed N delta = 4 L0, separations L0/2 and L0; bounded surrogate of 'follows the analytic "
+    "structure function': error <= 25 % at N = 32 (<= 8 % at N = 64) and at the finest N less than half of the error at "
+    "N = 8; measured 59/24/8.2/2.4 % (the tolerances are 3x the measured values: the residual is the discretisation of "
+    "ft_phase_screen, not the estimator, whose exact agreement with the definition on the ensemble is a separate clause)",
+    "Parseval is decided on band-limited real signals (DC and sinusoids at bins 1 <= k < floor(n/2)), with the weights "
+    "1 (DC, Nyquist), 2 (0 < k < n/2), 0 (mirror bins k > n/2) on whatever bins are returned",
+    "number of spectrum bins / axis entries: at least floor(n/2) (documented) and at most n; every returned bin k is "
+    "compared with |DFT_k|^2, every returned axis entry k < n/2 with k*rate/n; the second return value of "
+    "calc_slope_temporalps (a tuple is unpacked when one is returned) is not judged",
+    "calling conventions: the documented keyword names nbOfPoint / step, numpy integer scalars, and float values that "
+    "are whole numbers (the library converts step with int(); the default nbOfPoint is itself the float b/4) must give "
+    "the result of the positional int call",
+    "tolerance 1e-12 relative to the largest value for identities (measured <= 5e-14 with the reference DFT whose "
+    "phases are reduced mod n; <= 2e-15 for the structure function); 1e-10 for records of >= 1000 frames "
+    "(measured <= 2e-14)",
 ]
 TOL = 1e-12
+TOL_LONG = 1e-10        # records of >= 1000 frames; measured <= 2e-14 on the unchanged library
 SENTINEL = 12345.678
+BIG = (2.0 ** -27, 2.0 ** 27)       # amplitude factors far from 1 (powers of two: the scaling itself is exact)
 
 
 def _ab(tier):
@@ -71,24 +97,43 @@ def _frames(tier):
     return list(range(2, 41)) + [46, 58, 62, 74, 97, 101, 127, 202]
 
 
+def _long_frames(tier):
+    # long records (real ones have 10^3 - 10^5 frames): smooth, power of two, odd composite, prime (8191)
+    return [1000, 4096] if tier == "quick" else [1000, 2187, 4096, 8191]
+
+
+LONG_SUBAPS = [2, 70]               # 1000 x 70 and 4096 x 70 values: beyond 2^16 elements
+
+
 def _ladder(tier):
     return [8, 16, 32] if tier == "quick" else [8, 16, 32, 64]
 
 
 LEADS = [(), (2,), (2, 2)]
 SUBAPS = [1, 2, 3]
-RATES = [1.0, 50.0, 150.5, 500.0, 1000.0]
+RATES = [1.0, 50.0, 150.5, 500.0, 1000.0, 100, 3]        # the last two are Python ints
 SCREEN = {"r0": 0.2, "L0": 2.0, "extent_in_L0": 4.0}
-LADDER_END_TOL = {32: 0.10, 64: 0.03}
+# 3x the error measured on the unchanged library (0.082 / 0.024): what remains at these N is the discretisation
+# of ft_phase_screen (fixed extent 4 L0, PSD constant 0.023), which is not the subject of this property
+LADDER_END_TOL = {32: 0.25, 64: 0.08}
+LARGE_SHAPES = [(1024, 256), (257, 1030)]
+DEFAULT_SHAPES = [(a, b) for a in (5, 16, 40) for b in (16, 20, 33)]
 
 
 def BOUNDS(tier):
     return {"sf_shapes": "all (a,b), a,b in %d..%d" % (min(_ab(tier)), max(_ab(tier))),
             "nbOfPoint": "1..a+1 and default", "step": "1..3 and default",
-            "sf_inputs": "all a*b unit images, all pairs e_p+e_q, 4 dense images, ramps of 4 slopes",
-            "screen_ladder_N": _ladder(tier), "screen": SCREEN,
+            "sf_inputs": "all a*b unit images, all pairs e_p+e_q, 4 dense images, ramps of 4 slopes, all-zero image, "
+                         "amplitude factors 2, -3, 2^-27, 2^27",
+            "sf_default_nbOfPoint_shapes": [list(s) for s in DEFAULT_SHAPES], "sf_default_steps": [None, 2, 3],
+            "sf_large_shapes": [list(s) for s in LARGE_SHAPES] + [[130, 70]], "sf_large_params": "nbOfPoint None/64/30, step default/1/7",
+            "largest_phase_array": "1024 x 256 and 257 x 1030",
+            "screen_ladder_N": _ladder(tier), "screen": SCREEN, "screen_steps": [1, 2],
             "tps_frames": list(_frames(tier)), "tps_subaps": SUBAPS, "tps_leading_shapes": [list(l) for l in LEADS],
-            "tps_axis": {"rates": RATES, "n_frames": "1..33"}}
+            "tps_long_frames": _long_frames(tier), "tps_long_subaps": LONG_SUBAPS,
+            "largest_slope_record": "%d frames x 70 sub-apertures" % max(_long_frames(tier)),
+            "tps_many_subaps": "8, 9 frames x 127..300 sub-apertures",
+            "tps_axis": {"rates": RATES, "n_frames": "1..33 (int and numpy.int64), 1000, 4096, 8191"}}
 
 
 def cases(tier):
@@ -104,6 +149,13 @@ def cases(tier):
     yield Case("tpsaxis", {"kind": "tpsaxis"})
     yield Case("storage", {"kind": "storage"})
     yield Case("many_subaps", {"kind": "many"})
+    for n in _long_frames(tier):
+        yield Case("tps_long:n=%d" % n, {"kind": "tps_long", "n": n})
+    for a, b in LARGE_SHAPES:
+        yield Case("sf_large:a=%d:b=%d" % (a, b), {"kind": "sf_large", "a": a, "b": b})
+    yield Case("sf_default", {"kind": "sf_default"})
+    yield Case("calling", {"kind": "calling"})
+    yield Case("reuse", {"kind": "reuse"})
 
 
 # ----------------------------------------------------------------------------- helpers
@@ -121,9 +173,29 @@ def _dirty(n):
 
 
 def _expected_len(b, nb, step):
+    """the DOCUMENTED number of lags (used to choose which calls are in the domain, and as a note; not judged)"""
     nbv = b / 4 if nb is None else nb
     st = 1 if step is None else step
     return int(min(nbv, b / st - 1)), st
+
+
+def _len_bounds(a, b, nb, step):
+    """(lo, hi) for the number of returned lags: at least what BOTH the documented count and the count bounded by
+    the shifted axis give, at most nbOfPoint (default: the larger of the two quarter lengths)"""
+    doc, st = _expected_len(b, nb, step)
+    alt = (a - 1) // st + 1
+    if nb is None:
+        lo = min(doc, int(min(a / 4, alt)), int(min(b / 4, alt)))
+        hi = max(int(a / 4), int(b / 4))
+    else:
+        lo = min(doc, int(min(nb, alt)))
+        hi = int(nb)
+    return max(0, lo), hi
+
+
+def _judged(got, a, st):
+    """number of leading entries of a result that are lags with overlapping rows (j*step <= a-1)"""
+    return min(len(got), (a - 1) // st + 1)
 
 
 def _call_sf(sc, phase, nb, step, xm):
@@ -131,10 +203,19 @@ def _call_sf(sc, phase, nb, step, xm):
     with warnings.catch_warnings():
         warnings.simplefilter("ignore")
         if nb is None and step is None:
-            return numpy.asarray(sc.calculate_structure_function(phase))
-        if step is None:
-            return numpy.asarray(sc.calculate_structure_function(phase, nb))
-        return numpy.asarray(sc.calculate_structure_function(phase, nb, step))
+            r = sc.calculate_structure_function(phase)
+        elif step is None:
+            r = sc.calculate_structure_function(phase, nb)
+        elif nb is None:
+            r = sc.calculate_structure_function(phase, step=step)
+        else:
+            r = sc.calculate_structure_function(phase, nb, step)
+    return numpy.asarray(r)
+
+
+def _len_ok(got, a, b, nb, step):
+    lo, hi = _len_bounds(a, b, nb, step)
+    return got.ndim == 1 and lo <= got.shape[0] <= hi
 
 
 def _params(a, b):
@@ -157,12 +238,28 @@ def _dense_images(a, b):
 
 
 def evaluate(p):
-    if p["kind"] == "storage":
-        return _storage(p)
-    if p["kind"] == "many":
-        return _many(p)
     return {"sf": _sf, "lag0": _lag0, "sfscreen": _sfscreen, "sfscreen_lin": _sfscreen_lin,
-            "tps": _tps, "tpsaxis": _tpsaxis}[p["kind"]](p)
+            "tps": _tps, "tpsaxis": _tpsaxis, "storage": _storage, "many": _many, "tps_long": _tps_long,
+            "sf_large": _sf_large, "sf_default": _sf_default, "calling": _calling, "reuse": _reuse}[p["kind"]](p)
+
+
+def _nanmax(x):
+    x = numpy.asarray(x, dtype=float)
+    if x.size == 0:
+        return 0.0
+    if numpy.any(numpy.isnan(x)):
+        return float("inf")
+    return float(numpy.max(x))
+
+
+def _dev(got, want, J, scale=None):
+    """max |got[1:J] - want[1:J]| / scale (scale default: largest |want|)"""
+    if J < 2:
+        return 0.0
+    w = numpy.asarray(want, dtype=float)[1:J]
+    if scale is None:
+        scale = max(1e-300, _nanmax(numpy.abs(w)))
+    return _nanmax(numpy.abs(numpy.asarray(got, dtype=float)[1:J] - w)) / scale
 
 
 # ----------------------------------------------------------------------------- structure function
@@ -173,9 +270,11 @@ def _sf(p):
     a, b = p["a"], p["b"]
     n = a * b
     outside = 0
+    undoc = 0
     full = {}                        # step -> (nb, xm) with the most lags in the domain
-    w_def = w_ramp = w_quad = w_trunc = w_piston = 0.0
+    w_def = w_ramp = w_quad = w_trunc = w_piston = w_big = 0.0
     bad_len = []
+    nonzero = []
     for nb, step, xm, st, dom in _params(a, b):
         if dom is None:
             continue
@@ -188,40 +287,59 @@ def _sf(p):
         for name, img in _dense_images(a, b):
             got = _call_sf(sc, img.copy(), nb, step, xm)
             o.stat("lib_calls", 1)
-            if got.shape != (xm,):
+            if not _len_ok(got, a, b, nb, step):
                 bad_len.append((nb, step, got.shape))
                 continue
-            want = numpy.array(est.structure_function(img.tolist(), xm, st))
+            undoc += int(got.shape[0] != xm)
+            J = _judged(got, a, st)
+            want = numpy.array(est.structure_function(img.tolist(), J, st))
             scale = max(1e-300, float(numpy.max(numpy.abs(want))))
-            if xm > 1:
-                w_def = max(w_def, _nanmax(numpy.abs(got[1:] - want[1:])) / scale)
-                # quadratic in amplitude: x2 -> x4, x(-3) -> x9
-                for c in (2.0, -3.0):
+            if J > 1:
+                w_def = max(w_def, _dev(got, want, J, scale))
+                # quadratic in amplitude: x2 -> x4, x(-3) -> x9; and far from 1 (x 2^-27, x 2^27: an absolute floor /
+                # epsilon, or a clip, in the estimator shows only there)
+                for c in (2.0, -3.0) + BIG:
                     g2 = _call_sf(sc, (img * c).copy(), nb, step, xm)
                     o.stat("lib_calls", 1)
-                    w_quad = max(w_quad, _nanmax(numpy.abs(g2[1:] - c * c * got[1:])) / (c * c * scale))
+                    d = _dev(g2, c * c * got[:J], min(J, len(g2)), c * c * scale) if len(g2) >= J else float("inf")
+                    if c in BIG:
+                        w_big = max(w_big, d)
+                    else:
+                        w_quad = max(w_quad, d)
+        # an all-zero phase has structure function exactly 0 at every lag (every difference is exactly 0)
+        got = _call_sf(sc, numpy.zeros((a, b)), nb, step, xm)
+        o.stat("lib_calls", 1)
+        J = _judged(got, a, st) if got.ndim == 1 else 0
+        if J and not numpy.all(got[:J] == 0.0):
+            nonzero.append((nb, step, got[:J].tolist()))
         # ramps: slope s along the first axis (plus arbitrary column offsets) -> s^2 (j step)^2
         for s in (1.0, -2.0, 0.5, 3.0):
             ramp = s * numpy.arange(a)[:, None] + (numpy.arange(b)[None, :] * 1.75 - 2.0)
             got = _call_sf(sc, ramp, nb, step, xm)
             o.stat("lib_calls", 1)
-            if got.shape == (xm,) and xm > 1:
-                want = (s * numpy.arange(xm) * st) ** 2
-                w_ramp = max(w_ramp, _nanmax(numpy.abs(got[1:] - want[1:]) / want[1:]))
+            J = _judged(got, a, st) if got.ndim == 1 else 0
+            if J > 1:
+                want = (s * numpy.arange(J) * st) ** 2
+                w_ramp = max(w_ramp, _nanmax(numpy.abs(got[1:J] - want[1:]) / want[1:]))
             # the same ramp riding on a large piston (a screen with its mean level left in; dyadic values, so every
             # difference is exact): only differences enter the definition, the piston must cancel completely
             for piston in (2.0 ** 10, 2.0 ** 20, 2.0 ** 26):
                 got = _call_sf(sc, ramp + piston, nb, step, xm)
                 o.stat("lib_calls", 1)
-                if got.shape == (xm,) and xm > 1:
-                    want = (s * numpy.arange(xm) * st) ** 2
-                    w_piston = max(w_piston, _nanmax(numpy.abs(got[1:] - want[1:]) / want[1:]))
+                J = _judged(got, a, st) if got.ndim == 1 else 0
+                if J > 1:
+                    want = (s * numpy.arange(J) * st) ** 2
+                    w_piston = max(w_piston, _nanmax(numpy.abs(got[1:J] - want[1:]) / want[1:]))
     o.close("sf_ramp_on_large_piston", w_piston, 1e-9)
     o.stat("sf_param_combinations_outside_domain", outside)
+    if undoc:
+        o.note("sf_lag_count_differs_from_documented_formula:a=%d:b=%d" % (a, b), undoc)
     o.check("sf_result_length", not bad_len, detail="(nbOfPoint, step, shape) %s" % (bad_len[:3],))
     o.close("sf_definition", w_def, TOL, detail="dense images, all (nbOfPoint, step) in the domain, lags >= 1")
     o.close("sf_ramp_closed_form", w_ramp, TOL)
     o.close("sf_quadratic_in_amplitude", w_quad, TOL)
+    o.close("sf_quadratic_in_amplitude_far_from_1", w_big, TOL, detail="amplitude x 2^-27 and x 2^27")
+    o.check("sf_zero_phase_gives_zero", not nonzero, detail="(nbOfPoint, step, result) %s" % (nonzero[:2],))
     # truncation: a smaller nbOfPoint returns a prefix of the longest result
     for st, (nb, xm, step) in full.items():
         img = list(_dense_images(a, b))[3][1]
@@ -229,42 +347,47 @@ def _sf(p):
         for nb2 in range(1, xm):
             short = _call_sf(sc, img.copy(), nb2, step, nb2)
             o.stat("lib_calls", 1)
-            if short.shape != (nb2,):
-                o.check("sf_prefix_consistent", False, sub="step=%d" % st, detail="shape %s" % (short.shape,))
-            elif nb2 > 1:
-                w_trunc = max(w_trunc, _nanmax(numpy.abs(short[1:] - long[1:nb2])) / max(1e-300, _nanmax(numpy.abs(long[1:]))))
+            if short.ndim != 1 or long.ndim != 1:
+                continue                     # reported by sf_result_length
+            J = min(_judged(short, a, st), _judged(long, a, st))
+            if J > 1:
+                w_trunc = max(w_trunc, _nanmax(numpy.abs(short[1:J] - long[1:J])) / max(1e-300, _nanmax(numpy.abs(long[1:J]))))
     o.close("sf_prefix_consistent", w_trunc, TOL)
     # quadratic-form exhaustion: all unit images and all pairs, at the longest lag set of each step
     w_unit = w_pair = w_rec = 0.0
     for st, (nb, xm, step) in full.items():
         if xm < 2:
             continue
-        Q1 = numpy.zeros((n, xm))
+        probe = _call_sf(sc, numpy.zeros((a, b)), nb, step, xm)
+        J = _judged(probe, a, st) if probe.ndim == 1 else 0
+        if J < 2:
+            continue                         # reported by sf_result_length
+        Q1 = numpy.zeros((n, J))
         for k in range(n):
             e = numpy.zeros(n)
             e[k] = 1.0
             img = e.reshape(a, b)
-            got = _call_sf(sc, img, nb, step, xm)
+            got = _call_sf(sc, img, nb, step, xm)[:J]
             Q1[k] = got
-            want = numpy.array(est.structure_function(img.tolist(), xm, st))
+            want = numpy.array(est.structure_function(img.tolist(), J, st))
             w_unit = max(w_unit, _nanmax(numpy.abs(got[1:] - want[1:])))
         o.stat("lib_calls", n)
         # closed form of the definition on pairs: Q(e_p+e_q) = Q(e_p)+Q(e_q) - 2/(count_j) if q = p +- shift rows
-        M = numpy.zeros((xm, n, n))          # bilinear coefficients recovered from the real code
+        M = numpy.zeros((J, n, n))          # bilinear coefficients recovered from the real code
         for k in range(n):
             for l in range(k + 1, n):
                 e = numpy.zeros(n)
                 e[k] = 1.0
                 e[l] = 1.0
                 img = e.reshape(a, b)
-                got = _call_sf(sc, img, nb, step, xm)
-                want = numpy.array(est.structure_function(img.tolist(), xm, st))
+                got = _call_sf(sc, img, nb, step, xm)[:J]
+                want = numpy.array(est.structure_function(img.tolist(), J, st))
                 w_pair = max(w_pair, _nanmax(numpy.abs(got[1:] - want[1:])))
                 M[:, k, l] = 0.5 * (got - Q1[k] - Q1[l])
         o.stat("lib_calls", n * (n - 1) // 2)
         # polarisation: a dense image must be reproduced from the unit/pair responses (quadratic-form premise)
         x = numpy.sin(1.0 + numpy.arange(n) * 0.7) * 2.5
-        got = _call_sf(sc, x.reshape(a, b).copy(), nb, step, xm)
+        got = _call_sf(sc, x.reshape(a, b).copy(), nb, step, xm)[:J]
         o.stat("lib_calls", 1)
         rec = Q1.T @ (x * x) + 2.0 * numpy.einsum("jkl,k,l->j", M, x, x)
         w_rec = max(w_rec, _nanmax(numpy.abs(got[1:] - rec[1:])) / max(1e-300, _nanmax(numpy.abs(got[1:]))))
@@ -273,15 +396,6 @@ def _sf(p):
     o.close("sf_is_quadratic_form", w_rec, 1e-10)
     o.outcome([a, b, sorted(full)])
     return o
-
-
-def _nanmax(x):
-    x = numpy.asarray(x, dtype=float)
-    if x.size == 0:
-        return 0.0
-    if numpy.any(numpy.isnan(x)):
-        return float("inf")
-    return float(numpy.max(x))
 
 
 def _lag0(p):
@@ -304,14 +418,158 @@ def _lag0(p):
             for name, img in _dense_images(a, b):
                 got = _call_sf(sc, img.copy(), nb, step, xm)
                 n += 1
-                if got.shape != (xm,) or not (got[0] == 0.0):
-                    bad.append((b, nb, step, name, None if got.size == 0 else float(got[0])))
+                # the number of lags is judged by sf_result_length (sf cases); here only the value at lag 0
+                if got.ndim != 1 or got.shape[0] < 1:
+                    o.stat("sf_lag0_no_lag_returned", 1)
+                    continue
+                if not (got[0] == 0.0):
+                    bad.append((b, nb, step, name, float(got[0])))
     o.stat("lib_calls", n)
     o.note("allocator_recycles_sentinel_blocks", armed > 0)
     o.check("sf_lag0_zero", not bad, n=n, measure=len(bad), tol=0,
             detail=None if not bad else "%d of %d calls return a non-zero lag 0, e.g. phase shape (%d,%d) nbOfPoint=%s step=%s "
             "image=%s -> sf[0]=%r" % (len(bad), n, a, bad[0][0], bad[0][1], bad[0][2], bad[0][3], bad[0][4]))
     o.outcome([a, len(bad) > 0])
+    return o
+
+
+def _sf_fast_check(o, sc, clause, ph, nb, st, sub, tol=TOL):
+    """one call on a large array against the vectorised definition; every returned lag with overlap is judged"""
+    a, b = ph.shape
+    doc, step = _expected_len(b, nb, st)
+    if doc < 1 or (doc - 1) * step >= a:
+        o.stat("sf_param_combinations_outside_domain", 1)        # a documented lag without overlapping rows: not called
+        return
+    got = numpy.asarray(_call_sf(sc, ph.copy(), nb, st, 0), dtype=float)
+    o.stat("lib_calls", 1)
+    if not _len_ok(got, a, b, nb, st):
+        o.check(clause, False, sub=sub, detail="result shape %s, bounds on the number of lags %s" % (got.shape, _len_bounds(a, b, nb, st)))
+        return
+    J = _judged(got, a, step)
+    want = numpy.array([est.structure_function_lag_fast(ph, j * step) for j in range(J)])
+    o.close(clause, max(_dev(got, want, J), 0.0 if got[0] == 0.0 else float("inf")), tol, sub=sub,
+            detail="%d lags judged" % J)
+
+
+def _sf_large(p):
+    """large non-square arrays with column-dependent content (a size-dependent path - sub-sampling, another
+    algorithm beyond some size - is decided here)"""
+    o = Out()
+    sc = _sc()
+    a, b = p["a"], p["b"]
+    i, j = numpy.indices((a, b))
+    ph = numpy.sin(0.013 * i * i % 5.0) * (1.0 + (j % 5)) + 0.002 * j * i + numpy.cos(0.9 * j)
+    for nb, st in ((None, 1), (64, 1), (None, 7), (64, 7), (30, 7), (None, None)):
+        _sf_fast_check(o, sc, "sf_definition_large_array", ph, nb, st, "nb=%s:step=%s" % (nb, st))
+    return o
+
+
+def _sf_default(p):
+    """the default nbOfPoint (a quarter of the second axis) actually returning lags >= 1, alone and with step given
+    by keyword only"""
+    o = Out()
+    sc = _sc()
+    for a, b in DEFAULT_SHAPES:
+        for k, (name, img) in enumerate(_dense_images(a, b)):
+            for st in (None, 2, 3):
+                _sf_fast_check(o, sc, "sf_definition_default_nbOfPoint", numpy.asarray(img, dtype=float), None, st,
+                               "a=%d:b=%d:%s:step=%s" % (a, b, name, st))
+    return o
+
+
+def _calling(p):
+    """documented calling conventions give the result of the positional int call"""
+    o = Out()
+    sc = _sc()
+    tp = _tps_fn()
+    i, j = numpy.indices((9, 12))
+    ph = numpy.sin(0.4 * i * i + 0.3 * j) + 0.1 * i * j
+    with warnings.catch_warnings():
+        warnings.simplefilter("ignore")
+        base = numpy.asarray(sc.calculate_structure_function(ph.copy(), 3, 2), dtype=float)
+        variants_ = [
+            ("keywords", lambda: sc.calculate_structure_function(ph.copy(), nbOfPoint=3, step=2)),
+            ("keywords_swapped", lambda: sc.calculate_structure_function(phase=ph.copy(), step=2, nbOfPoint=3)),
+            ("numpy_int64", lambda: sc.calculate_structure_function(ph.copy(), numpy.int64(3), numpy.int64(2))),
+            ("numpy_int32", lambda: sc.calculate_structure_function(ph.copy(), numpy.int32(3), numpy.int32(2))),
+            ("float_step", lambda: sc.calculate_structure_function(ph.copy(), 3, 2.0)),
+            ("numpy_float_step", lambda: sc.calculate_structure_function(ph.copy(), 3, numpy.float64(2.0))),
+            ("float_nbOfPoint", lambda: sc.calculate_structure_function(ph.copy(), 3.0, 2)),
+            ("numpy_float_nbOfPoint", lambda: sc.calculate_structure_function(ph.copy(), numpy.float64(3.0), 2)),
+        ]
+        for name, f in variants_:
+            got = numpy.asarray(f(), dtype=float)
+            o.stat("lib_calls", 1)
+            ok = got.shape == base.shape
+            o.close("sf_calling_convention", _nanmax(numpy.abs(got - base)) / _nanmax(numpy.abs(base)) if ok else float("inf"),
+                    TOL, sub=name, detail="result %s vs positional ints %s" % (got.tolist()[:4], base.tolist()[:4]))
+        # default step with keyword nbOfPoint, default nbOfPoint with keyword step
+        # (default nbOfPoint with keyword step: compared with the definition in the sf_default case)
+        for name, f, g in (
+                ("nbOfPoint_only", lambda: sc.calculate_structure_function(ph.copy(), nbOfPoint=4),
+                 lambda: sc.calculate_structure_function(ph.copy(), 4, 1)),):
+            got = numpy.asarray(f(), dtype=float)
+            ref = numpy.asarray(g(), dtype=float)
+            o.stat("lib_calls", 2)
+            ok = got.shape == ref.shape and got.size > 1
+            o.close("sf_calling_convention", _nanmax(numpy.abs(got - ref)) / _nanmax(numpy.abs(ref)) if ok else float("inf"),
+                    TOL, sub=name)
+    # frequency axis: integer rate, numpy scalars
+    for n in (9, 16):
+        base = numpy.asarray(tp.get_tps_time_axis(200.0, n), dtype=float)
+        for name, args in (("int_rate", (200, n)), ("numpy_scalars", (numpy.float64(200.0), numpy.int64(n))),
+                           ("numpy_int_rate", (numpy.int64(200), numpy.int32(n)))):
+            got = numpy.asarray(tp.get_tps_time_axis(*args), dtype=float)
+            o.stat("lib_calls", 1)
+            ok = got.shape == base.shape
+            o.close("tps_axis_calling_convention", _nanmax(numpy.abs(got - base)) / 200.0 if ok else float("inf"), TOL,
+                    sub="%s:n=%d" % (name, n))
+        got = numpy.asarray(tp.get_tps_time_axis(frame_rate=200.0, n_frames=n), dtype=float)
+        o.stat("lib_calls", 2)
+        o.close("tps_axis_calling_convention", _nanmax(numpy.abs(got - base)) / 200.0 if got.shape == base.shape else float("inf"),
+                TOL, sub="keywords:n=%d" % n)
+    return o
+
+
+def _reuse(p):
+    """call histories on caller-owned objects: the same array handed in twice, a result held across later calls,
+    the caller's in-place edit between calls (mc.variants.check_reuse)"""
+    from mc import variants
+    o = Out()
+    sc = _sc()
+    tp = _tps_fn()
+    i, j = numpy.indices((8, 6))
+    x = ((3 * i * i + 5 * j + i * j) % 17).astype(float)
+    for nb, st in ((3, 1), (2, 2), (4, None)):
+        def f(arr, nb=nb, st=st):
+            with warnings.catch_warnings():
+                warnings.simplefilter("ignore")
+                return sc.calculate_structure_function(arr, nb) if st is None else sc.calculate_structure_function(arr, nb, st)
+        o.stat("lib_calls", variants.check_reuse(o, "sf_history", f, x, TOL, sub="nb=%s:step=%s" % (nb, st)))
+    fr, k = numpy.indices((8, 3))
+    sl = ((7 * fr + 3 * k * k + fr * k) % 11).astype(float)
+    for name, data in (("2d", sl), ("3d", numpy.array([sl, sl[::-1] + 1]))):
+        o.stat("lib_calls", variants.check_reuse(o, "tps_history", lambda arr: tp.calc_slope_temporalps(arr), data, TOL, sub=name))
+    # frequency axis: a held axis survives later calls (also with another rate for the same n) and the caller's edit
+    bad = []
+    for n in (8, 9):
+        a1 = tp.get_tps_time_axis(100.0, n)
+        keep = numpy.array(a1, dtype=float)
+        a2 = numpy.array(tp.get_tps_time_axis(250.0, n), dtype=float)
+        if not numpy.array_equal(numpy.asarray(a1, dtype=float), keep):
+            bad.append(("held axis changed by a later call", n))
+        if isinstance(a1, numpy.ndarray) and a1.flags.writeable:
+            a1[...] = -7.0
+        a3 = numpy.array(tp.get_tps_time_axis(100.0, n), dtype=float)
+        a4 = numpy.array(tp.get_tps_time_axis(250.0, n), dtype=float)
+        o.stat("lib_calls", 4)
+        K = min(len(keep), (n + 1) // 2)
+        want = numpy.arange(K) / n
+        for nm, arr, rate in (("first", keep, 100.0), ("other_rate", a2, 250.0), ("after_caller_edit", a3, 100.0),
+                              ("other_rate_again", a4, 250.0)):
+            if len(arr) < K or not numpy.max(numpy.abs(arr[:K] - want * rate)) <= TOL * rate:
+                bad.append((nm, n, arr.tolist()))
+    o.check("tps_axis_history", not bad, detail="%s" % (bad[:2],))
     return o
 
 
@@ -323,6 +581,36 @@ def _screen_cfg(N):
     return r0, L0, delta, delta * 1e-3
 
 
+def _draw_premise(phasescreen, N):
+    """How many normal draws does one screen consume, and do zero draws give the zero screen?  Returns (nd, None)
+    or (0, reason).  Only this is assumed of the generator (how the draws are requested - two (N,N) blocks, one
+    (2,N,N) block, ... - is private to it)."""
+    r0, L0, delta, l0 = _screen_cfg(N)
+    try:
+        g0 = SeqGenerator(numpy.zeros(1))
+        z = numpy.asarray(phasescreen.ft_phase_screen(r0, N, delta, L0, l0, seed=g0))
+    except Exception as e:          # SeqGenerator raises on any other distribution method: instrumentation, not a finding
+        return 0, "%s: %s" % (type(e).__name__, str(e)[:120])
+    nd = int(g0.consumed)
+    if nd < 1 or nd > 8 * N * N:
+        return 0, "%d normal draws consumed from the injected Generator" % nd
+    if z.shape != (N, N) or numpy.any(z != 0):
+        return 0, "zero draws do not give the zero screen"
+    return nd, None
+
+
+def _sampled_spectrum_sf(N, shifts):
+    """structure function of the stationary field  Re sum_k c_k exp(2 pi i f_k x),  <|c_k|^2> = 2 PSD(f_k) df^2  on the
+    FFT grid f = (-N/2..N/2-1) df  (what an FFT screen generator with the sampled von Karman spectrum produces)"""
+    r0, L0, delta, l0 = _screen_cfg(N)
+    df = 1.0 / (N * delta)
+    fx = numpy.arange(-N / 2., N / 2.) * df
+    FX, FY = numpy.meshgrid(fx, fx)
+    psd = vk.screen_psd(numpy.sqrt(FX ** 2 + FY ** 2), r0, L0, l0, 0.023)
+    psd[N // 2, N // 2] = 0.0
+    return numpy.array([2.0 * float(numpy.sum(psd * df * df * (1.0 - numpy.cos(2 * math.pi * FX * s * delta)))) for s in shifts])
+
+
 def _sfscreen(p):
     o = Out()
     sc = _sc()
@@ -330,28 +618,67 @@ def _sfscreen(p):
     N = p["N"]
     r0, L0, delta, l0 = _screen_cfg(N)
     nb = N // 4 + 1
-    nd = 2 * N * N
-    g0 = SeqGenerator(numpy.zeros(nd))
-    z = phasescreen.ft_phase_screen(r0, N, delta, L0, l0, seed=g0)
-    o.check("screen_draw_requests", list(g0.calls) == [(N, N), (N, N)] and not numpy.any(z),
-            detail="normal() requests %s, zero draws give max|screen|=%r" % (g0.calls, float(numpy.max(numpy.abs(z)))))
+    nb2 = N // 8 + 1                 # step 2: lag j <-> shift 2 j, the same separations
+    nd, why = _draw_premise(phasescreen, N)
+    if not nd:
+        o.stat("screen_ensemble_not_claimed", 1)
+        o.note("screen_ensemble_not_claimed:N=%d" % N, why)
+        return o
     acc = numpy.zeros(nb)
     accref = numpy.zeros(nb)
+    acc2 = numpy.zeros(nb2)
+    probes = [numpy.sin(0.3 + numpy.arange(nd) * 1.1), ((numpy.arange(nd) * 7) % 5 - 2.0)]
+    super_ = [numpy.zeros((N, N)) for _ in probes]
+    shape_ok = True
     for k in range(nd):
-        T = phasescreen.ft_phase_screen(r0, N, delta, L0, l0, seed=unit_draws(nd, k))
+        try:
+            T = numpy.asarray(phasescreen.ft_phase_screen(r0, N, delta, L0, l0, seed=unit_draws(nd, k)))
+        except RuntimeError as e:
+            o.stat("screen_ensemble_not_claimed", 1)
+            o.note("screen_ensemble_not_claimed:N=%d" % N, str(e)[:120])
+            return o
+        for v, s_ in zip(probes, super_):
+            s_ += v[k] * T
         got = _call_sf(sc, T, nb, 1, nb)
+        got2 = _call_sf(sc, T, nb2, 2, nb2)
+        if got.shape != (nb,) or got2.shape != (nb2,):
+            shape_ok = False
+            break
         acc[1:] += got[1:]
+        acc2[1:] += got2[1:]
         for j in range(1, nb):
             accref[j] += est.structure_function_lag_fast(T, j)
-    o.stat("lib_calls", 2 * nd + 1)
-    # exact ensemble mean of the estimator == definition applied to the exact ensemble (no PSD assumed)
+    o.stat("lib_calls", 3 * nd + 1)
+    # (N//4+1 <= N/2 - 1 lags of a square N x N screen: documented count and shifted-axis count agree)
+    o.check("sf_result_length", shape_ok, detail="N x N screen, nbOfPoint = N/4+1 (step 1) / N/8+1 (step 2)")
+    if not shape_ok:
+        return o
+    # premise of the ensemble-mean formula: the screen is the superposition of its unit-draw responses
+    lin = 0.0
+    for v, s_ in zip(probes, super_):
+        s = numpy.asarray(phasescreen.ft_phase_screen(r0, N, delta, L0, l0, seed=SeqGenerator(v)))
+        lin = max(lin, float(numpy.max(numpy.abs(s - s_))) / max(1e-300, float(numpy.max(numpy.abs(s)))))
+    o.note("screen_superposition_error:N=%d" % N, lin)
+    # exact ensemble mean of the estimator == definition applied to the exact ensemble (no PSD assumed; holds for the
+    # sum over ANY set of screens, linear generator or not)
     o.close("sf_screen_ensemble_mean_is_definition", _nanmax(numpy.abs(acc[1:] - accref[1:])) / _nanmax(accref[1:]), 1e-10)
+    o.close("sf_screen_ensemble_mean_is_definition_step2",
+            _nanmax(numpy.abs(acc2[1:] - accref[2:2 * nb2 - 1:2])) / _nanmax(accref[1:]), 1e-10,
+            detail="lag j at step 2 against the shift 2 j")
+    if not lin <= 1e-8:
+        o.stat("screen_ensemble_not_claimed", 1)
+        o.note("screen_ensemble_not_claimed:N=%d" % N, "screen not linear in its draws (superposition error %g)" % lin)
+        return o
     # against the analytic von Karman structure function at r = L0/2 and L0 (lags N/8 and N/4)
     lags = [N // 8, N // 4]
     D = vk.structure_function(numpy.array(lags) * delta, r0, L0)
     err = numpy.abs(acc[lags] / D - 1.0)
     o.note("rel_err_at_L0/2_and_L0:N=%d" % N, [float(e) for e in err])
     o.note("ensemble_mean_at_L0/2_and_L0:N=%d" % N, [float(v) for v in acc[lags]])
+    # observation (not judged: it would pin the discretisation of the generator): the structure function of the
+    # von Karman spectrum SAMPLED on the FFT grid, which an FFT generator reproduces exactly
+    Ds = _sampled_spectrum_sf(N, lags)
+    o.note("rel_dev_from_sampled_spectrum_sf:N=%d" % N, [float(e) for e in numpy.abs(acc[lags] / Ds - 1.0)])
     if N in LADDER_END_TOL:
         o.close("sf_screen_follows_analytic_N=%d" % N, float(err.max()), LADDER_END_TOL[N],
                 detail="ensemble mean %s vs analytic D %s at r = L0/2, L0" % (acc[lags].tolist(), D.tolist()))
@@ -365,37 +692,48 @@ def _sfscreen_lin(p):
     from aotools.turbulence import phasescreen
     N = p["N"]
     r0, L0, delta, l0 = _screen_cfg(N)
-    nd = 2 * N * N
-    T = numpy.array([phasescreen.ft_phase_screen(r0, N, delta, L0, l0, seed=unit_draws(nd, k)).reshape(-1) for k in range(nd)])
-    worst = 0.0
-    vs = [numpy.sin(0.3 + numpy.arange(nd) * 1.1), ((numpy.arange(nd) * 7) % 5 - 2.0)]
-    for a_ in range(0, nd, 7):
-        v = numpy.zeros(nd)
-        v[a_] = 1.0
-        v[(a_ * 5 + 3) % nd] += 2.0
-        vs.append(v)
-    for v in vs:
-        s = phasescreen.ft_phase_screen(r0, N, delta, L0, l0, seed=SeqGenerator(v)).reshape(-1)
-        worst = max(worst, float(numpy.max(numpy.abs(s - v @ T))) / max(1e-300, float(numpy.max(numpy.abs(s)))))
+    nd, why = _draw_premise(phasescreen, N)
+    if not nd:
+        o.stat("screen_ensemble_not_claimed", 1)
+        o.note("screen_ensemble_not_claimed:lin", why)
+        return o
+    try:
+        T = numpy.array([phasescreen.ft_phase_screen(r0, N, delta, L0, l0, seed=unit_draws(nd, k)).reshape(-1) for k in range(nd)])
+        worst = 0.0
+        vs = [numpy.sin(0.3 + numpy.arange(nd) * 1.1), ((numpy.arange(nd) * 7) % 5 - 2.0)]
+        for a_ in range(0, nd, 7):
+            v = numpy.zeros(nd)
+            v[a_] = 1.0
+            v[(a_ * 5 + 3) % nd] += 2.0
+            vs.append(v)
+        for v in vs:
+            s = phasescreen.ft_phase_screen(r0, N, delta, L0, l0, seed=SeqGenerator(v)).reshape(-1)
+            worst = max(worst, float(numpy.max(numpy.abs(s - v @ T))) / max(1e-300, float(numpy.max(numpy.abs(s)))))
+    except RuntimeError as e:        # raised by SeqGenerator (another distribution method was used)
+        o.stat("screen_ensemble_not_claimed", 1)
+        o.note("screen_ensemble_not_claimed:lin", str(e)[:120])
+        return o
     o.stat("lib_calls", nd + len(vs))
     o.close("screen_linear_in_draws", worst, 1e-10)
     return o
 
 
 def finalize(tier, results):
-    """refinement ladder: the error of the ensemble-mean structure function against the analytic one
-    decreases strictly with N at both separations"""
+    """refinement ladder: the error of the ensemble-mean structure function against the analytic one at the finest
+    N is less than half of the error at the coarsest N, at both separations (measured: 59 % -> 8.2 % / 2.4 %);
+    whether it decreases at every single rung is recorded as a note"""
     o = Out()
     errs = []
     for N in _ladder(tier):
         r = results.get("sfscreen:N=%d" % N)
         key = "rel_err_at_L0/2_and_L0:N=%d" % N
         if r is None or key not in r.notes:
-            return None          # --only run, or the case raised (reported there)
+            return None          # --only run, the case raised (reported there), or the screens clause is not claimed
         errs.append(r.notes[key])
     errs = numpy.array(errs, dtype=float)
-    ok = bool(numpy.all(numpy.diff(errs, axis=0) < 0))
-    o.check("sf_screen_error_decreases_along_ladder", ok, measure=float(numpy.max(numpy.diff(errs, axis=0))), tol=0.0,
+    o.note("sf_screen_error_strictly_decreasing_at_every_rung", bool(numpy.all(numpy.diff(errs, axis=0) < 0)))
+    ratio = float(numpy.max(errs[-1] / numpy.maximum(errs[0], 1e-300)))
+    o.check("sf_screen_error_decreases_along_ladder", ratio < 0.5, measure=ratio, tol=0.5,
             detail="relative errors per N (rows) at r = L0/2, L0: %s" % numpy.round(errs, 4).tolist())
     return o
 
@@ -405,6 +743,27 @@ def finalize(tier, results):
 def _tps_fn():
     from aotools.turbulence import temporal_ps
     return temporal_ps
+
+
+def _tps_call(tp, x):
+    """the spectrum (first return value when a tuple is returned) as a float array"""
+    r = tp.calc_slope_temporalps(x)
+    if isinstance(r, (tuple, list)):
+        r = r[0]
+    return numpy.asarray(r, dtype=float)
+
+
+def _bins_ok(got, lead, n):
+    """leading shape kept; at least the documented floor(n/2) bins and at most n"""
+    return got.ndim == len(lead) + 1 and got.shape[:-1] == tuple(lead) and n // 2 <= got.shape[-1] <= n
+
+
+def _parseval_weights(K, n):
+    k = numpy.arange(K)
+    w = numpy.where(2 * k < n, 2.0, 0.0)
+    w[2 * k == n] = 1.0
+    w[0] = 1.0
+    return w
 
 
 def _tps_inputs(n, m):
@@ -432,44 +791,65 @@ def _tps(p):
     n = p["n"]
     nbins = n // 2
     w_def = {"unit": 0.0, "pair": 0.0, "dense": 0.0}
-    w_quad = w_pars = w_batch = 0.0
+    w_quad = w_pars = w_batch = w_big = 0.0
     first_def = first_quad = first_pars = None
     bad_shape = []
     peaks_bad = []
+    nonzero = []
+    undoc = 0
+    lost = 0.0
     for m in SUBAPS:
         # definition on every unit, pair and dense input (leading shape ())
         for kind, x in _tps_inputs(n, m):
-            got, err = tp.calc_slope_temporalps(x.copy())
-            got = numpy.asarray(got, dtype=float)
+            got = _tps_call(tp, x.copy())
             o.stat("lib_calls", 1)
-            if got.shape != (nbins,) or numpy.asarray(err).shape != (nbins,):
+            if not _bins_ok(got, (), n):
                 bad_shape.append((m, kind, got.shape))
                 continue
-            want = est.temporal_power_spectrum(x)
+            K = got.shape[-1]
+            undoc += int(K != nbins)
+            want = est.temporal_power_spectrum(x, K)
             scale = max(1e-300, float(numpy.max(numpy.abs(want))))
             dv = _nanmax(numpy.abs(got - want)) / scale
             if dv > TOL and first_def is None:
                 first_def = "n=%d subaps=%d %s input: got %s, |FFT|^2 mean %s" % (n, m, kind, got[:4].tolist(), want[:4].tolist())
             w_def[kind] = max(w_def[kind], dv)
+            if kind == "dense":
+                # evidence only: the part of sum_t x^2 that the returned bins do not carry (Nyquist bin for even n,
+                # bin (n-1)/2 for odd n are not returned by the documented floor(n/2) bins)
+                energy = float(numpy.sum(numpy.asarray(x, dtype=float) ** 2) / m)
+                lost = max(lost, abs(energy - float(numpy.sum(_parseval_weights(K, n) * got)) / n) / energy)
             if kind != "unit":
-                for c in (2.0, -3.0):
-                    g2 = numpy.asarray(tp.calc_slope_temporalps(x * c)[0], dtype=float)
+                for c in (2.0, -3.0) + (BIG if kind == "dense" else ()):
+                    g2 = _tps_call(tp, x * c)
                     o.stat("lib_calls", 1)
+                    if g2.shape != got.shape:
+                        bad_shape.append((m, kind + " x%g" % c, g2.shape))
+                        continue
                     gs = max(1e-300, float(numpy.max(numpy.abs(got))))
                     dq = _nanmax(numpy.abs(g2 - c * c * got)) / (c * c * gs)
                     if dq > TOL and first_quad is None:
                         k = int(numpy.argmax(numpy.abs(got)))
                         first_quad = ("n=%d subaps=%d %s input: amplitude x%g changes bin %d by x%.6g (must be x%g)"
                                       % (n, m, kind, c, k, g2[k] / got[k], c * c))
-                    w_quad = max(w_quad, dq)
-        # pure sinusoids: every returned bin k >= 1, three phases, different phase per sub-aperture
+                    if c in BIG:
+                        w_big = max(w_big, dq)
+                    else:
+                        w_quad = max(w_quad, dq)
+        # all-zero slopes have an all-zero spectrum, exactly
+        got = _tps_call(tp, numpy.zeros((n, m)))
+        o.stat("lib_calls", 1)
+        if numpy.any(got != 0.0):
+            nonzero.append((m, got.reshape(-1)[:3].tolist()))
+        # pure sinusoids: every bin 1 <= k < floor(n/2), three phases, different phase per sub-aperture
         t = numpy.arange(n)
         for k in range(1, nbins):
             for ph in (0.0, 0.7, 2.1):
                 x = numpy.stack([numpy.cos(2 * math.pi * k * t / n + ph + 0.4 * c) * (1.0 + c) for c in range(m)], axis=-1)
-                got = numpy.asarray(tp.calc_slope_temporalps(x)[0], dtype=float)
+                got = _tps_call(tp, x)
                 o.stat("lib_calls", 1)
-                if got.shape != (nbins,) or int(numpy.argmax(got)) != k or not got[k] > 0:
+                # (bins beyond n/2, if an implementation returns them, mirror the ones below: not searched)
+                if got.ndim != 1 or got.shape[0] <= k or int(numpy.argmax(got[:nbins + 1])) != k or not got[k] > 0:
                     peaks_bad.append((m, k, ph))
         # Parseval on band-limited signals: mean_c sum_t x^2 = (P_0 + 2 sum_{k>=1} P_k)/n
         for variant in range(3):
@@ -478,12 +858,12 @@ def _tps(p):
                 x[:, c] = 0.5 * (variant + 1) - 0.3 * c
                 for k in range(1, nbins):
                     x[:, c] += (1.0 + 0.5 * ((k + c + variant) % 3)) * numpy.cos(2 * math.pi * k * t / n + 0.9 * k + 0.4 * c + variant)
-            got = numpy.asarray(tp.calc_slope_temporalps(x.copy())[0], dtype=float)
+            got = _tps_call(tp, x.copy())
             o.stat("lib_calls", 1)
-            if got.shape != (nbins,):
+            if not _bins_ok(got, (), n):
                 continue
             energy = float(numpy.sum(x * x) / m)
-            spec = float((got[0] + 2.0 * got[1:].sum()) / n)
+            spec = float(numpy.sum(_parseval_weights(got.shape[0], n) * got) / n)
             dp = abs(spec - energy) / energy
             if dp > 1e-11 and first_pars is None:
                 first_pars = "n=%d subaps=%d: sum_t x^2 (mean over sub-apertures) = %r, (P0 + 2 sum P_k)/n = %r" % (n, m, energy, spec)
@@ -493,17 +873,27 @@ def _tps(p):
             nl = int(numpy.prod(lead))
             items = [numpy.sin(0.5 + numpy.arange(n * m).reshape(n, m) * (0.3 + 0.2 * i)) * (1 + i) for i in range(nl)]
             stack = numpy.array(items).reshape(lead + (n, m))
-            got = numpy.asarray(tp.calc_slope_temporalps(stack.copy())[0], dtype=float)
+            got = _tps_call(tp, stack.copy())
             o.stat("lib_calls", 1 + nl)
-            if got.shape != lead + (nbins,):
+            if not _bins_ok(got, lead, n):
                 bad_shape.append((m, "lead=%s" % (lead,), got.shape))
                 continue
-            single = numpy.array([numpy.asarray(tp.calc_slope_temporalps(it.copy())[0], dtype=float) for it in items]).reshape(lead + (nbins,))
+            K = got.shape[-1]
+            singles = [_tps_call(tp, it.copy()) for it in items]
+            if any(s_.shape != (K,) for s_ in singles):
+                bad_shape.append((m, "lead=%s item" % (lead,), singles[0].shape))
+                continue
+            single = numpy.array(singles).reshape(lead + (K,))
             w_batch = max(w_batch, _nanmax(numpy.abs(got - single)) / max(1e-300, _nanmax(numpy.abs(single))))
+    if undoc:
+        o.note("tps_bin_count_differs_from_documented_floor_n_2:n=%d" % n, undoc)
+    o.note("tps_energy_fraction_outside_returned_bins_dense_inputs:n=%d" % n, lost)
     o.check("tps_result_shape", not bad_shape, detail="(subaps, input, shape) %s" % (bad_shape[:3],))
     o.close("tps_definition_unit_inputs", w_def["unit"], TOL)
     o.close("tps_definition", max(w_def["pair"], w_def["dense"]), TOL, detail=first_def)
     o.close("tps_quadratic_in_amplitude", w_quad, TOL, detail=first_quad)
+    o.close("tps_quadratic_in_amplitude_far_from_1", w_big, TOL, detail=first_quad or "amplitude x 2^-27 and x 2^27")
+    o.check("tps_zero_slopes_give_zero", not nonzero, detail="(subaps, spectrum) %s" % (nonzero[:2],))
     o.close("tps_parseval", w_pars, 1e-11, detail=first_pars)
     o.check("tps_sinusoid_peak", not peaks_bad, n=max(1, 3 * len(SUBAPS) * max(0, nbins - 1)),
             detail="(subaps, bin, phase) %s" % (peaks_bad[:3],))
@@ -512,21 +902,105 @@ def _tps(p):
     return o
 
 
+def _tps_long(p):
+    """records of realistic length (a size-dependent path - reduced precision beyond some size, segment averaging
+    of long records - is decided here): definition, sinusoid and DC closed forms, Parseval, amplitude law"""
+    o = Out()
+    tp = _tps_fn()
+    n = p["n"]
+    nbins = n // 2
+    t = numpy.arange(n)
+    for m in LONG_SUBAPS:
+        sub = "subaps=%d" % m
+        c = numpy.arange(m)
+        # dense: broadband deterministic signal, different in every sub-aperture
+        x = (numpy.sin(1.0 + 0.37 * numpy.outer(t, 1.0 + 0.01 * c) ** 1.1 % 9.0) * 1.5 + 0.25
+             + 0.5 * numpy.cos(2 * math.pi * numpy.outer(t, (3 + c) % nbins) / n))
+        got = _tps_call(tp, x.copy())
+        o.stat("lib_calls", 1)
+        if not _bins_ok(got, (), n):
+            o.check("tps_result_shape", False, sub=sub, detail="shape %s" % (got.shape,))
+            continue
+        K = got.shape[0]
+        want = est.temporal_power_spectrum(x, K)
+        o.close("tps_definition_long_record", _nanmax(numpy.abs(got - want)) / float(numpy.max(want)), TOL_LONG, sub=sub)
+        for cc in (-3.0,) + BIG:
+            g2 = _tps_call(tp, x * cc)
+            o.stat("lib_calls", 1)
+            o.close("tps_quadratic_in_amplitude_long_record",
+                    _nanmax(numpy.abs(g2 - cc * cc * got)) / (cc * cc * float(numpy.max(got))) if g2.shape == got.shape else float("inf"),
+                    TOL_LONG, sub="%s:x%g" % (sub, cc))
+        # Parseval, band-limited: DC + sinusoids at 40 bins spread over 1..nbins-1
+        ks = sorted(set(int(v) for v in numpy.linspace(1, nbins - 1, 40)))
+        y = numpy.zeros((n, m))
+        for q, k in enumerate(ks):
+            y += (1.0 + 0.5 * ((q + c) % 3))[None, :] * numpy.cos(2 * math.pi * ((k * t) % n)[:, None] / n + 0.9 * q + 0.4 * c[None, :])
+        y += 0.5 - 0.003 * c[None, :]
+        got = _tps_call(tp, y.copy())
+        o.stat("lib_calls", 1)
+        if _bins_ok(got, (), n):
+            energy = float(numpy.sum(y * y) / m)
+            spec = float(numpy.sum(_parseval_weights(got.shape[0], n) * got) / n)
+            o.close("tps_parseval_long_record", abs(spec - energy) / energy, TOL_LONG, sub=sub)
+        # closed forms: A cos(2 pi k t/n + phase) -> P_k = (A n/2)^2, every other bin 0; constant c0 -> P_0 = (n c0)^2
+        worst = 0.0
+        for k in (1, 7, nbins // 3, nbins - 1):
+            amp = 1.0 + 0.25 * c
+            z = amp[None, :] * numpy.cos(2 * math.pi * ((k * t) % n)[:, None] / n + 0.3 + 0.4 * c[None, :])
+            got = _tps_call(tp, z)
+            o.stat("lib_calls", 1)
+            if not _bins_ok(got, (), n):
+                worst = float("inf")
+                continue
+            want = numpy.zeros(got.shape[0])
+            want[k] = float(numpy.mean((amp * n / 2.0) ** 2))
+            if got.shape[0] > n - k:
+                want[n - k] = want[k]
+            worst = max(worst, _nanmax(numpy.abs(got - want)) / want[k])
+            if int(numpy.argmax(got[:nbins + 1])) != k:
+                worst = float("inf")
+        o.close("tps_sinusoid_closed_form_long_record", worst, TOL_LONG, sub=sub)
+        z = numpy.ones((n, 1)) * (0.75 - 0.5 * (c % 4))[None, :]
+        got = _tps_call(tp, z)
+        o.stat("lib_calls", 1)
+        if _bins_ok(got, (), n):
+            want = numpy.zeros(got.shape[0])
+            want[0] = float(numpy.mean((n * (0.75 - 0.5 * (c % 4))) ** 2))
+            o.close("tps_constant_closed_form_long_record", _nanmax(numpy.abs(got - want)) / want[0], TOL_LONG, sub=sub)
+    return o
+
+
+def _axis_dev(got, rate, n):
+    """max |axis[k] - k rate/n| / rate over the returned entries k < n/2, or None when the length is out of bounds"""
+    got = numpy.asarray(got, dtype=float)
+    if got.ndim != 1 or not (n // 2 <= got.shape[0] <= n):
+        return None
+    K = min(got.shape[0], (n + 1) // 2)
+    if K == 0:
+        return 0.0
+    want = numpy.array([k * float(rate) / n for k in range(K)])
+    return float(numpy.max(numpy.abs(got[:K] - want))) / float(rate)
+
+
 def _tpsaxis(p):
     o = Out()
     tp = _tps_fn()
     worst = 0.0
     bad = []
+    undoc = 0
+    ns = [(n, n) for n in range(1, 34)] + [(numpy.int64(n), n) for n in (7, 8, 33)] + [(n, n) for n in (1000, 4096, 8191)]
     for rate in RATES:
-        for n in range(1, 34):
-            got = numpy.asarray(tp.get_tps_time_axis(rate, n), dtype=float)
+        for narg, n in ns:
+            got = numpy.asarray(tp.get_tps_time_axis(rate, narg), dtype=float)
             o.stat("lib_calls", 1)
-            want = numpy.array(est.frequency_axis(rate, n))
-            if got.shape != want.shape:
+            d = _axis_dev(got, rate, n)
+            if d is None:
                 bad.append((rate, n, got.shape))
                 continue
-            if want.size:
-                worst = max(worst, float(numpy.max(numpy.abs(got - want))) / rate)
+            undoc += int(got.shape[0] != len(est.frequency_axis(rate, n)))
+            worst = max(worst, d)
+    if undoc:
+        o.note("tps_axis_length_differs_from_documented_floor_n_2", undoc)
     o.check("tps_axis_length", not bad, detail="(rate, n, shape) %s" % (bad[:3],))
     o.close("tps_axis_is_k_rate_over_n", worst, TOL)
     return o
@@ -534,32 +1008,39 @@ def _tpsaxis(p):
 
 LEVEL_TEXT = ("Structure function: every shape (a,b) with a,b in 2..6 (quick) / 2..9 (thorough), every (nbOfPoint, step) in the "
               "domain, and every unit image and every pair of unit images (the estimator is a quadratic form, so these "
-              "decide it for all inputs of that shape); the ensemble mean over ALL FFT screens from the complete draw-"
-              "response operator (2 N^2 unit draws, N = 8..32 / 64). Temporal spectrum: every frame count 2..10 / 2..16 x 1..3 "
-              "sub-apertures x 3 leading shapes, all unit inputs and pairs, every sinusoid bin, every (rate, n<=33) axis.")
+              "decide it for all inputs of that shape); default nbOfPoint on 9 shapes up to 40 x 33; arrays of 1024 x 256 and "
+              "257 x 1030 (step 1, 7); the ensemble mean over ALL FFT screens from the complete draw-"
+              "response operator (all unit draws, N = 8..32 / 64, step 1 and 2). Temporal spectrum: every frame count 2..16 / "
+              "2..40 (plus counts with large prime factors up to 46 / 202) x 1..3 "
+              "sub-apertures x 3 leading shapes, all unit inputs and pairs, every sinusoid bin, every (rate, n<=33) axis; "
+              "records of 1000 and 4096 (thorough: also 2187, 8191) frames x 2 / 70 sub-apertures; call histories on one "
+              "caller-owned array; documented calling conventions.")
 LEVEL_NOTE = ("Trusted: the loop definitions in mc/refmodels/estimators.py and the textbook structure function in "
-              "mc/refmodels/vk_closed_forms.py. Not covered: shapes beyond the bound, lags without overlap, the std-error "
-              "output of calc_slope_temporalps, plotting/fitting helpers; the screens clause is a bounded refinement ladder.")
+              "mc/refmodels/vk_closed_forms.py. Not covered: shapes beyond the bound, lags without overlap, the number of "
+              "lags / bins beyond the bounds given in the assumptions, the std-error "
+              "output of calc_slope_temporalps, plotting/fitting helpers; the screens clause is a bounded refinement ladder "
+              "on one (r0, L0) and one generator (ft_phase_screen).")
 
 
 def _storage(p):
     """the estimators are functions of the VALUES: the same numbers in another memory layout or dtype
     (Fortran order, strided / transposed views, read-only, float32, integer types) give the same answer"""
     from mc import variants
-    from aotools.turbulence import temporal_ps as tp
+    tp = _tps_fn()
     sc = _sc()
     o = Out()
     i, j = numpy.indices((8, 6))
     x = ((3 * i * i + 5 * j + i * j) % 17).astype(float)
     for nb, st in ((3, 1), (2, 2), (None, None)):
         n = variants.check_storage(o, "sf_independent_of_storage",
-                                   lambda a: sc.calculate_structure_function(a, nb, st), x, 1e-12, sub="nb=%s:step=%s" % (nb, st),
+                                   (lambda a: sc.calculate_structure_function(a)) if nb is None else
+                                   (lambda a: sc.calculate_structure_function(a, nb, st)), x, 1e-12, sub="nb=%s:step=%s" % (nb, st),
                                    kinds=("float32", "int64", "int32"))     # phases and slopes are signed quantities
         o.stat("lib_calls", n)
     f, k = numpy.indices((8, 3))
     sl = ((7 * f + 3 * k * k + f * k) % 11).astype(float)
     for name, data in (("2d", sl), ("3d", numpy.array([sl, sl[::-1] + 1]))):
-        n = variants.check_storage(o, "tps_independent_of_storage", lambda a: tp.calc_slope_temporalps(a)[0], data, 1e-12,
+        n = variants.check_storage(o, "tps_independent_of_storage", lambda a: _tps_call(tp, a), data, 1e-12,
                                    sub=name, kinds=("float32", "int64", "int32"))
         o.stat("lib_calls", n)
     return o
@@ -578,27 +1059,15 @@ def _many(p):
         for m in (127, 128, 129, 130, 200, 256, 257, 300):
             x = 0.01 * numpy.cos(0.3 * numpy.outer(t, numpy.arange(m)) % 7.0)
             x[:, -2:] += 5.0 * numpy.cos(2 * math.pi * 2 * t / n)[:, None]      # strong signal in the last two
-            got = numpy.asarray(tp.calc_slope_temporalps(x.copy())[0], dtype=float)
-            want = est.temporal_power_spectrum(x)
+            got = _tps_call(tp, x.copy())
             o.stat("lib_calls", 1)
-            scale = max(1e-300, float(numpy.max(numpy.abs(want))))
-            ok = got.shape == want.shape
-            o.close("tps_definition_many_subapertures", _nanmax(numpy.abs(got - want)) / scale if ok else float("inf"),
+            ok = _bins_ok(got, (), n)
+            want = est.temporal_power_spectrum(x, got.shape[-1]) if ok else None
+            o.close("tps_definition_many_subapertures",
+                    _nanmax(numpy.abs(got - want)) / max(1e-300, float(numpy.max(numpy.abs(want)))) if ok else float("inf"),
                     TOL, sub="n=%d:subaps=%d" % (n, m))
     i, j = numpy.indices((130, 70))
     ph = numpy.sin(0.07 * i * i % 5.0) + 0.01 * j * i
     for nb, st in ((20, 1), (10, 3), (None, None)):
-        got = numpy.asarray(sc.calculate_structure_function(ph.copy(), nb, st), dtype=float)
-        want = None
-        o.stat("lib_calls", 1)
-        if want is None:
-            # definition coded here: lag j -> mean over all pairs of rows j*step apart
-            step = 1 if st is None else st
-            nbv = ph.shape[1] / 4 if nb is None else nb
-            xm = int(min(nbv, ph.shape[1] / step - 1))
-            want = numpy.array([0.0] + [float(numpy.mean((ph[:-k * step] - ph[k * step:]) ** 2)) for k in range(1, xm)])
-        ok = got.shape == want.shape
-        scale = max(1e-300, float(numpy.max(numpy.abs(want))))
-        o.close("sf_definition_large_array", _nanmax(numpy.abs(got - want)) / scale if ok else float("inf"), TOL,
-                sub="nb=%s:step=%s" % (nb, st))
+        _sf_fast_check(o, sc, "sf_definition_large_array", ph, nb, st, "nb=%s:step=%s" % (nb, st))
     return o
